@@ -53,6 +53,8 @@ def skeleton_repeat(draw, c):
         derived.append({"name": "Y", "args": [draw(st.sampled_from(["A", "B"]))], "kind": draw(st.sampled_from(["transition", "transition", "window"])),
                         "width": 2, "stride": 1, "start": None, "levels": [["y0", 1], ["y1", 1]], "else_last": draw(st.booleans()),
                         "salt": draw(st.integers(0, 10 ** 6)), "overrides": {}})
+        if draw(st.integers(0, 2)):
+            G.same_different(derived[-1], [l[0] for l in (A if derived[-1]["args"][0] == "A" else B)["levels"]])
         crossing = draw(st.sampled_from([["Y"], ["Y"], ["A", "Y"]]))
     if draw(st.booleans()):
         derived.append({"name": "X", "args": ["A", "B"], "kind": "within", "width": 1, "stride": 1, "start": None,
